@@ -113,7 +113,48 @@ func init() {
 			})
 		}
 		walk("tryCleanUser")
+		// the record ptt.NewRegister hands to SetupNewUser: a value of its own (composite literal, new(T), the
+		// address of a local variable) or something shared between requests (a package-level variable)?
+		reqRec := "unknown"
+		if nr := decls["NewRegister"]; nr != nil {
+			var argName string
+			ast.Inspect(nr.Body, func(n ast.Node) bool {
+				if call, ok := n.(*ast.CallExpr); ok {
+					if id, ok := call.Fun.(*ast.Ident); ok && id.Name == "SetupNewUser" && len(call.Args) == 1 {
+						if a, ok := call.Args[0].(*ast.Ident); ok {
+							argName = a.Name
+						} else {
+							argName = "?"
+							reqRec = classifyRecordExpr(p.TypesInfo, call.Args[0])
+						}
+					}
+				}
+				return true
+			})
+			if argName != "" && argName != "?" {
+				reqRec = "unassigned"
+				ast.Inspect(nr.Body, func(n ast.Node) bool {
+					as, ok := n.(*ast.AssignStmt)
+					if !ok {
+						return true
+					}
+					for i, lhs := range as.Lhs {
+						if id, ok := lhs.(*ast.Ident); ok && id.Name == argName && i < len(as.Rhs) && len(as.Lhs) == len(as.Rhs) {
+							v := classifyRecordExpr(p.TypesInfo, as.Rhs[i])
+							if reqRec == "unassigned" || v != "fresh" {
+								reqRec = v // any assignment that is not fresh decides
+							}
+						}
+					}
+					return true
+				})
+			}
+		} else {
+			fatal("ptt.NewRegister not found")
+		}
 		lf := newLean("Reg")
+		lf.raw("/-- what ptt.NewRegister passes to SetupNewUser: \"fresh\" = a record built for this request (composite literal, new, address of a local). -/\n")
+		lf.raw("def requestRecord : String := \"" + reqRec + "\"\n")
 		lf.raw("/-- index / record writes reachable from ptt.tryCleanUser (which SetupNewUser calls before PasswdLock), depth first in source order. -/\n")
 		lf.raw("def cleanUserCalls : List String := [")
 		for i, c := range clean {
@@ -134,4 +175,39 @@ func init() {
 		lf.raw("]\n")
 		lf.write(out)
 	})
+}
+
+// classifyRecordExpr: "fresh" for &T{...}, new(T), &local; "shared:<name>" for a package-level variable
+// (or its address); otherwise "other:<expr>".
+func classifyRecordExpr(info *types.Info, e ast.Expr) string {
+	pkgLevel := func(id *ast.Ident) bool {
+		obj := info.Uses[id]
+		if obj == nil {
+			obj = info.Defs[id]
+		}
+		return obj != nil && obj.Pkg() != nil && obj.Parent() == obj.Pkg().Scope()
+	}
+	switch x := e.(type) {
+	case *ast.UnaryExpr:
+		if x.Op.String() == "&" {
+			switch y := x.X.(type) {
+			case *ast.CompositeLit:
+				return "fresh"
+			case *ast.Ident:
+				if pkgLevel(y) {
+					return "shared:" + y.Name
+				}
+				return "fresh"
+			}
+		}
+	case *ast.CallExpr:
+		if id, ok := x.Fun.(*ast.Ident); ok && id.Name == "new" {
+			return "fresh"
+		}
+	case *ast.Ident:
+		if pkgLevel(x) {
+			return "shared:" + x.Name
+		}
+	}
+	return "other:" + strings.ReplaceAll(types.ExprString(e), "\"", "'")
 }
